@@ -22,6 +22,7 @@ type Gen struct {
 }
 
 type gslot struct {
+	grpc  bool // mode "mixed": a gRPC connection (no idle timeout)
 	made  bool
 	alive bool
 	last  int64
@@ -30,6 +31,8 @@ type gslot struct {
 type gtry struct {
 	idx  int
 	name string
+	grpc bool
+	used bool // an unlock was already aimed at this grant
 }
 
 func NewGen(seed, index uint64, p *Profile) *Gen {
@@ -56,6 +59,9 @@ func NewGen(seed, index uint64, p *Profile) *Gen {
 		ns = 1
 	}
 	g.slots = make([]gslot, 1+g.r.IntN(ns))
+	if p.Mode == "mixed" && len(g.slots) < 2 {
+		g.slots = make([]gslot, 2) // both transports are present: even slots are REST sessions, odd slots gRPC connections
+	}
 	return g
 }
 
@@ -116,19 +122,43 @@ func (g *Gen) cookieKind() string {
 	return "own"
 }
 
-func (g *Gen) keyRef(name string) *KeyRef {
+func (g *Gen) keyRef(name string, grpc bool, consume bool) *KeyRef {
+	mark := func(idx int) *KeyRef {
+		if consume {
+			for k := range g.tries {
+				if g.tries[k].idx == idx {
+					g.tries[k].used = true
+				}
+			}
+		}
+		return &KeyRef{Ref: idx}
+	}
 	if len(g.tries) > 0 && g.r.IntN(100) >= g.p.BadKeyPct {
-		// prefer a grant of the same name
+		// prefer a grant of the same name (mode "mixed": made over the other transport, not yet unlocked, recent first)
 		cands := []gtry{}
 		for _, t := range g.tries {
-			if t.name == name {
+			if t.name == name && (g.p.Mode != "mixed" || !t.used || g.r.IntN(4) == 0) {
 				cands = append(cands, t)
 			}
 		}
-		if len(cands) > 0 {
-			return &KeyRef{Ref: cands[g.r.IntN(len(cands))].idx}
+		if g.p.Mode == "mixed" && g.r.IntN(100) < 75 {
+			other := []gtry{}
+			for _, t := range cands {
+				if t.grpc != grpc {
+					other = append(other, t)
+				}
+			}
+			if len(other) > 0 {
+				if len(other) > 3 {
+					other = other[len(other)-3:]
+				}
+				return mark(other[g.r.IntN(len(other))].idx)
+			}
 		}
-		return &KeyRef{Ref: g.tries[g.r.IntN(len(g.tries))].idx}
+		if len(cands) > 0 {
+			return mark(cands[g.r.IntN(len(cands))].idx)
+		}
+		return mark(g.tries[g.r.IntN(len(g.tries))].idx)
 	}
 	switch g.r.IntN(4) {
 	case 0:
@@ -152,7 +182,7 @@ func (g *Gen) keyRef(name string) *KeyRef {
 func (g *Gen) advance(dt int64) {
 	g.now += dt
 	for i := range g.slots {
-		if g.slots[i].alive && g.now >= g.slots[i].last+g.cfg.Tmo {
+		if g.slots[i].alive && !g.slots[i].grpc && g.now >= g.slots[i].last+g.cfg.Tmo {
 			g.slots[i].alive = false
 			g.Stats["expected_expiry"]++
 		}
@@ -162,11 +192,11 @@ func (g *Gen) advance(dt int64) {
 func (g *Gen) advEvent(i int) Ev {
 	tmo := g.cfg.Tmo
 	small := []int64{1, 1e6, 1e9 - 1, 1e9, 1e9 + 1, 2e9, 3e9, tmo / 2}
-	if g.p.Mode == "c15" {
+	if g.p.Mode == "c15" || g.p.Mode == "mixed" {
 		// keep every connected client alive: the most idle one may reach at most timeout-1ns
 		max := int64(1) << 60
 		for _, s := range g.slots {
-			if s.alive && s.last+tmo-1-g.now < max {
+			if s.alive && !s.grpc && s.last+tmo-1-g.now < max {
 				max = s.last + tmo - 1 - g.now
 			}
 		}
@@ -178,6 +208,9 @@ func (g *Gen) advEvent(i int) Ev {
 		}
 		if max > 0 && max < int64(1)<<59 {
 			cands = append(cands, max, max) // the boundary: a gap of exactly timeout-1ns
+		}
+		if max >= int64(1)<<59 { // only gRPC connections: nothing to keep alive
+			cands = append(cands, small...)
 		}
 		if len(cands) == 0 {
 			return Ev{} // caller touches a session instead
@@ -221,10 +254,10 @@ func (g *Gen) Next(i int) (Ev, bool) {
 	}
 	g.made++
 	g.probe = true
-	c15 := g.p.Mode == "c15"
+	c15 := g.p.Mode == "c15" || g.p.Mode == "mixed"
 	al := g.aliveSlots()
 	op := g.weighted()
-	if g.made == 1 || (len(al) == 0 && (c15 || g.r.IntN(100) < 70) && op != "adv") {
+	if g.made == 1 || (g.p.Mode == "mixed" && g.made == 2) || (len(al) == 0 && (c15 || g.r.IntN(100) < 70) && op != "adv") {
 		op = "create"
 	}
 	if c15 && op == "create" && len(al) == len(g.slots) {
@@ -252,6 +285,13 @@ func (g *Gen) Next(i int) (Ev, bool) {
 			}
 			g.slots[s] = gslot{made: true, alive: true, last: g.now}
 			g.Stats["g_create"]++
+			if g.p.Mode == "mixed" {
+				if s%2 == 1 {
+					g.slots[s].grpc = true
+					return Ev{Op: "create", S: s, T: "grpc"}, true
+				}
+				return Ev{Op: "create", S: s, T: "rest"}, true
+			}
 			return Ev{Op: "create", S: s}, true
 		case "delete":
 			s := g.r.IntN(len(g.slots))
@@ -294,12 +334,12 @@ func (g *Gen) Next(i int) (Ev, bool) {
 			switch op {
 			case "try":
 				ev.Name, ev.Size, ev.Lt, ev.Body = name, pick(g, g.p.Sizes, nil), pick(g, g.p.Lts, nil), bodies[g.r.IntN(len(bodies))]
-				g.tries = append(g.tries, gtry{idx: i, name: name})
+				g.tries = append(g.tries, gtry{idx: i, name: name, grpc: g.slots[s].grpc})
 			case "unl":
-				ev.Name, ev.Key, ev.Body = name, g.keyRef(name), bodies[g.r.IntN(len(bodies))]
+				ev.Name, ev.Key, ev.Body = name, g.keyRef(name, g.slots[s].grpc, true), bodies[g.r.IntN(len(bodies))]
 			case "ren":
 				lt := pick(g, g.p.RenewLts, int32(2))
-				ev.Name, ev.Key, ev.Body = name, g.keyRef(name), bodies[g.r.IntN(len(bodies))]
+				ev.Name, ev.Key, ev.Body = name, g.keyRef(name, g.slots[s].grpc, false), bodies[g.r.IntN(len(bodies))]
 				if !(lt == 0 && g.r.IntN(2) == 0) { // 0 is also sent as "absent"
 					ev.Lt = &lt
 				}
